@@ -45,11 +45,13 @@ def main(ctx):
     # real children are started from a fresh interpreter in its own session
     import json
     from lib import sandbox
+    scale = sandbox.time_scale()
     rc, obs, log = sandbox.run_driver('harness.procs_main', [ctx.tier, json.dumps(jobs)],
-                                      timeout=1500 if thorough else 400)
+                                      timeout=(1500 if thorough else 400) * scale,
+                                      env={'VERIF_TIME_SCALE': str(scale)})
     if rc != 0 or obs is None:
         raise RuntimeError('process driver failed (rc=%s): %s' % (rc, log[-1500:]))
-    bad = [o for o in obs if any(x['act']['e'] == 'harness_timeout' for x in o)]
+    bad = [o for o in obs if any(x['act']['e'] in ('harness_timeout', 'harness_error') for x in o)]
     if bad:
         raise RuntimeError('harness: child did not end: %r' % (bad[0][0]['state'],))
     ctx.traces += len(obs)
